@@ -86,49 +86,40 @@ Proof.
   apply elem_of_list_filter. split; assumption.
 Qed.
 
-(** where narrow puts a candidate: in the intersection when the query has no address (it then
-    holds every requested token), in the union when it has one *)
+(** where narrow puts a candidate: in the intersection when the query has neither address nor
+    references (it then holds every requested token), in the union otherwise *)
 Theorem narrow_keeps_candidates st q ign sp u :
   narrow st q = Ok sp -> spec_candidate st q ign u ->
-  match q_addr q with
-  | None => u_ref u ∈ s_list (sp_inter sp)
-  | Some _ => u_ref u ∈ s_list (sp_union sp)
-  end.
+  u_ref u ∈ s_list (sp_inter sp) \/ u_ref u ∈ s_list (sp_union sp).
 Proof.
   unfold narrow. intros H (Hst & Hign & Haddr & Hrefs & Hcoll & Htok).
   set (parent := match q_addr q with Some a => Specific (by_address st a) | None => All end) in *.
   set (sp1 := include_subset (mk_space NotSet NotSet) parent) in *.
   set (sp2 := match q_min q with None => sp1 | Some m => fold_left _ (map_to_list m) sp1 end) in *.
-  set (sp3 := match q_refs q with [] => sp2 | rs => include_subset sp2 (Specific rs) end) in *.
+  set (sp3 := match q_refs q with [] => sp2 | rs => mk_space (Specific rs) (s_inter (sp_inter sp2) (Specific rs)) end) in *.
   destruct (is_constrained sp3) eqn:Ec; [|discriminate]. injection H as <-.
   assert (Hsp1 : sp1 = mk_space parent parent) by (subst sp1; destruct parent; reflexivity).
+  destruct (q_refs q) as [|r0 rs] eqn:Er.
+  2:{ (* references: they are the union *) right. subst sp3. cbn. exact Hrefs. }
   destruct (q_addr q) as [a|] eqn:Ea.
   - (* an address: the candidate is supplied by the union *)
-    assert (Hp : is_specific parent = true) by reflexivity.
+    right. assert (Hp : is_specific parent = true) by reflexivity.
     assert (Hu1 : Usem (sp_union sp1) (u_ref u)).
     { rewrite Hsp1. cbn. apply by_address_elem; assumption. }
-    assert (Hu2 : Usem (sp_union sp2) (u_ref u) /\ is_specific (sp_union sp2) = true).
-    { subst sp2. destruct (q_min q) as [m|].
-      - split; [apply (fold_union_mono st parent); exact Hu1|].
-        apply (fold_union_specific st parent); [exact Hp|rewrite Hsp1; exact Hp].
-      - split; [exact Hu1|rewrite Hsp1; exact Hp]. }
-    destruct Hu2 as [Hu2 Hs2].
-    apply Usem_specific.
-    + subst sp3. destruct (q_refs q); [exact Hs2|]. cbn. apply specific_union; [exact Hs2|reflexivity].
-    + subst sp3. destruct (q_refs q); [exact Hu2|]. cbn. apply Usem_union_l. exact Hu2.
-  - (* no address: the candidate satisfies every constraint of the intersection *)
-    apply Isem_specific.
-    { unfold is_constrained in Ec. destruct (sp_inter sp3); try discriminate. reflexivity. }
+    subst sp3. apply Usem_specific.
+    + subst sp2. destruct (q_min q) as [m|]; [|rewrite Hsp1; exact Hp].
+      apply (fold_union_specific st parent); [exact Hp|rewrite Hsp1; exact Hp].
+    + subst sp2. destruct (q_min q) as [m|]; [|exact Hu1]. apply (fold_union_mono st parent). exact Hu1.
+  - (* neither: the candidate satisfies every constraint of the intersection *)
+    left. subst sp3. apply Isem_specific.
+    { unfold is_constrained in Ec. destruct (sp_inter sp2); try discriminate. reflexivity. }
     assert (Hi1 : Isem (sp_inter sp1) (u_ref u)) by (rewrite Hsp1; exact I).
-    assert (Hi2 : Isem (sp_inter sp2) (u_ref u)).
-    { subst sp2. destruct (q_min q) as [m|] eqn:Em; [|exact Hi1].
-      apply (fold_inter st parent); [|exact Hi1].
-      intros [c z] Hin Hz. cbn [fst snd] in *. destruct c as [|n|p n]; cbn; try exact I.
-      apply by_asset_elem; [exact Hst|].
-      apply (Htok eq_refl). unfold target_of. rewrite Em. cbn.
-      apply elem_of_map_to_list in Hin. unfold get0. rewrite Hin. exact Hz. }
-    subst sp3. destruct (q_refs q) as [|r0 rs] eqn:Er; [exact Hi2|].
-    cbn. apply Isem_inter. split; [exact Hi2|]. cbn. exact Hrefs.
+    subst sp2. destruct (q_min q) as [m|] eqn:Em; [|exact Hi1].
+    apply (fold_inter st parent); [|exact Hi1].
+    intros [c z] Hin Hz. cbn [fst snd] in *. destruct c as [|n|p n]; cbn; try exact I.
+    apply by_asset_elem; [exact Hst|].
+    apply (Htok eq_refl eq_refl). unfold target_of. rewrite Em. cbn.
+    apply elem_of_map_to_list in Hin. unfold get0. rewrite Hin. exact Hz.
 Qed.
 
 (** when the window is not exceeded, the top-up takes all of union∖intersection *)
@@ -160,15 +151,15 @@ Proof.
   intros Hn Hf Hw Hc. pose proof (narrow_keeps_candidates st q ign sp u Hn Hc) as Hin.
   destruct Hc as (Hst & Hign & Haddr & Hrefs & Hcoll & Htok).
   assert (Ht : u_ref u ∈ take_space sp window fill).
-  { unfold take_space. destruct (q_addr q) as [a|].
-    - destruct (decide (u_ref u ∈ s_list (sp_inter sp))) as [Hb|Hb].
-      + destruct (_ <? _)%nat; [apply elem_of_app; left|]; exact Hb.
-      + assert (Hd : u_ref u ∈ take_diff sp) by (unfold take_diff; apply elem_of_list_difference; split; assumption).
-        pose proof (fill_takes_all sp fill _ Hf Hw Hd) as Hfl.
-        destruct (length (s_list (sp_inter sp)) <? window)%nat eqn:El.
-        * apply elem_of_app. right. exact Hfl.
-        * apply Nat.ltb_ge in El. destruct (take_diff sp); [apply elem_of_nil in Hd; contradiction|cbn in Hw; lia].
-    - destruct (_ <? _)%nat; [apply elem_of_app; left|]; exact Hin. }
+  { unfold take_space.
+    destruct (decide (u_ref u ∈ s_list (sp_inter sp))) as [Hb|Hb].
+    - destruct (_ <? _)%nat; [apply elem_of_app; left|]; exact Hb.
+    - destruct Hin as [Hin|Hin]; [contradiction|].
+      assert (Hd : u_ref u ∈ take_diff sp) by (unfold take_diff; apply elem_of_list_difference; split; assumption).
+      pose proof (fill_takes_all sp fill _ Hf Hw Hd) as Hfl.
+      destruct (length (s_list (sp_inter sp)) <? window)%nat eqn:El.
+      + apply elem_of_app. right. exact Hfl.
+      + apply Nat.ltb_ge in El. destruct (take_diff sp); [apply elem_of_nil in Hd; contradiction|cbn in Hw; lia]. }
   unfold fetched_cands. apply elem_of_list_filter. split.
   - apply meets_spec. split; assumption.
   - assert (Hfe : u ∈ fetch st (filter (fun r => r ∉ ign) (take_space sp window fill))).
@@ -274,15 +265,15 @@ Proof.
   apply elem_of_list_filter in Hr as [Hign Ht].
   repeat split; try assumption.
   (* a query without address: what was taken lies in the intersection, hence holds every token *)
-  intros Ea p n Hpos. unfold narrow in Hn. rewrite Ea in Hn.
+  intros Ea Er p n Hpos. unfold narrow in Hn. rewrite Ea, Er in Hn.
   set (sp1 := include_subset (mk_space NotSet NotSet) All) in *.
   set (sp2 := match q_min q with None => sp1 | Some m => fold_left _ (map_to_list m) sp1 end) in *.
-  set (sp3 := match q_refs q with [] => sp2 | rs => include_subset sp2 (Specific rs) end) in *.
+  set (sp3 := sp2) in *.
   destruct (is_constrained sp3) eqn:Ec; [|discriminate]. injection Hn as <-.
   assert (Hu2 : sp_union sp2 = All).
   { subst sp2. destruct (q_min q); [apply (fold_union_all st All); reflexivity|reflexivity]. }
   assert (Hu3 : s_list (sp_union sp3) = []).
-  { subst sp3. destruct (q_refs q); [rewrite Hu2; reflexivity|]. cbn. rewrite Hu2. reflexivity. }
+  { subst sp3. rewrite Hu2. reflexivity. }
   assert (Hdiff : take_diff sp3 = []) by (unfold take_diff; rewrite Hu3; reflexivity).
   assert (Hfill : fill = []).
   { unfold fill_ok in Hf. rewrite Hdiff in Hf. destruct (_ <? _)%nat.
@@ -293,8 +284,7 @@ Proof.
   { unfold take_space in Ht. rewrite Hfill in Ht. destruct (_ <? _)%nat; [rewrite app_nil_r in Ht|]; exact Ht. }
   assert (Hi3 : Isem (sp_inter sp3) (u_ref u)).
   { unfold is_constrained in Ec. destruct (sp_inter sp3); try discriminate. exact Hbest. }
-  assert (Hi2 : Isem (sp_inter sp2) (u_ref u)).
-  { subst sp3. destruct (q_refs q); [exact Hi3|]. cbn in Hi3. apply Isem_inter in Hi3 as [H _]. exact H. }
+  assert (Hi2 : Isem (sp_inter sp2) (u_ref u)) by exact Hi3.
   unfold target_of in Hpos. destruct (q_min q) as [m|] eqn:Em; [|cbn in Hpos; rewrite get0_empty in Hpos; lia].
   cbn in Hpos. subst sp2. apply (fold_inter_back st All) in Hi2 as [_ Hall].
   unfold get0 in Hpos. destruct (m !! Defined p n) as [z|] eqn:El; [|cbn in Hpos; lia]. cbn in Hpos.
